@@ -59,7 +59,7 @@ for _p in ("C05", "C06", "C07", "C08", "C09", "C13", "C15", "C16"):
 CLAIMED["C05"]["text"] += " G8/K5d: on failure every leaf of the decoded value depends on the status; every backend decoder overwrites its whole receiver on every path."
 CLAIMED["C19"]["text"] += " R19c: every loop is iterator-bounded, a counter loop stepping to its bound, or a reviewed (numeric / probabilistic, undecided) loop."
 for _p in ("C08", "C13"):
-    CLAIMED[_p]["text"] += " G15: sign_hash, verify_hash and verify_trunc_hash of one curve place the bytes of the hash argument into the scalar buffer identically (agreement of siblings; bits2int itself is not decided)."
+    CLAIMED[_p]["text"] += " G15: sign_hash, verify_hash and verify_trunc_hash read the hash argument from its first byte and place it right-aligned in the scalar buffer (byte placement of bits2int; the reduction itself is not decided)."
 for _p in ("C15", "C19"):
     CLAIMED[_p]["text"] += " G14: every test on the result of the FROST identifier comparator treats the outcome Equal on its own or rejects it (lists strictly increasing; the predicate establishing the interpolation assert's precondition is strict)."
 CLAIMED["C10"]["text"] += " R10z: in the ten vartime combination routines the result is assigned as a whole on every path, for every value of the routine's flags."
